@@ -398,6 +398,9 @@ func strMatch(L *LState) int {
 	if offset < 0 {
 		offset = 0
 	}
+	if offset > l {
+		offset = l
+	}
 
 	mds, err := pm.Find(pattern, unsafeFastStringToReadOnlyBytes(str), offset, 1)
 	if err != nil {
@@ -405,7 +408,7 @@ func strMatch(L *LState) int {
 	}
 	if len(mds) == 0 {
 		L.Push(LNil)
-		return 0
+		return 1
 	}
 	md := mds[0]
 	nsubs := md.CaptureLength() / 2
